@@ -16,13 +16,13 @@ LEMMA InitDom == Init => DomInv
   BY KPos DEF Init, DomInv, Tasks
 
 LEMMA StepDom == DomInv /\ [Next]_vars => DomInv'
-  BY DEF DomInv, Next, vars, Select, SelectInvalid, Add, Sample, LenQuery, Tasks
+  BY DEF DomInv, Next, vars, Select, SelectInvalid, Add, Route, Sample, LenQuery, Tasks
 
 THEOREM DomInvariant == Spec => []DomInv
   BY InitDom, StepDom, PTL DEF Spec
 
 THEOREM Isolation == DomInv /\ [Next]_vars => IsolationStep
-  BY DEF DomInv, IsolationStep, Next, vars, Select, SelectInvalid, Add, Sample, LenQuery, Tasks
+  BY DEF DomInv, IsolationStep, Next, vars, Select, SelectInvalid, Add, Route, Sample, LenQuery, Tasks
 
 (* the temporal form of MultiTask.tla *)
 THEOREM Spec => TaskIsolation
